@@ -3,15 +3,17 @@
    canonicalised), the consistency verdict of every completion, and on consistent completions the outcome
    (sat / unsat / error) of every model residual against the outcome of the Rust residual policy, and the
    reauthorization decision.
-   Domain of faithfulness: the model's extension library has the decimal functions only; cases whose policies call
-   another extension function are left to the implementation-level oracle (counted in model_skipped)."""
+   The model runs with the full extension-function table of coq/model/ExtParse.v (C07)."""
 import cedar
 import framework as fw
 import texpr
 from sx import Sym, Str
 
 PROP = "C14"
-MODEL_EXT = {"decimal", "lessThan", "lessThanOrEqual", "greaterThan", "greaterThanOrEqual"}
+MODEL_EXT = {"decimal", "lessThan", "lessThanOrEqual", "greaterThan", "greaterThanOrEqual",
+             "ip", "isIpv4", "isIpv6", "isLoopback", "isMulticast", "isInRange",
+             "datetime", "duration", "offset", "durationSince", "toDate", "toTime",
+             "toMilliseconds", "toSeconds", "toMinutes", "toHours", "toDays"}   # ExtParse.call_xfn (C07): the whole table
 
 
 def ext_fns(t, acc):
